@@ -615,6 +615,8 @@ class FuncRun(ExprMixin, InstrMixin, CallMixin):
             ctx['block'] = b
             outs = self.exec_block(ctx, blk, st)
             for succ, s2 in outs:
+                if not self.mute and ctx['spec'] is not None:
+                    self.check_loop_exits(ctx, b, succ, s2)
                 if (b, succ) in cfg.back:
                     if region is not None and succ == skip_header:
                         exits.append(('back', b, succ, s2))
@@ -625,6 +627,23 @@ class FuncRun(ExprMixin, InstrMixin, CallMixin):
                 else:
                     in_states.setdefault(succ, []).append((b, s2))
         return exits
+
+    def check_loop_exits(self, ctx, b, succ, st):
+        """`exit-ensures` clauses of every loop this edge leaves (normal termination or break)"""
+        cfg = ctx['cfg']
+        for header, body in cfg.loops.items():
+            if b in body and succ not in body:
+                n, lspec = self.loop_spec(ctx, header)
+                if lspec is None or not lspec.exit_ensures:
+                    continue
+                env = self.make_env(ctx, st, b)
+                fnname = self.oname if ctx['frame'] == self.top_frame else self.inline_name(ctx)
+                for c in lspec.exit_ensures:
+                    try:
+                        t = self.eval_bool(c.parse(), env)
+                        self.oblige('inv-exit', t, st, c.text, c.src, clause=c, slug='L%d-%s' % (n, c.slug()), fnname=fnname)
+                    except Unsupported as e:
+                        self.elab_fail('loop %d exit-ensures %r: %s' % (n, c.text, e), c)
 
     # ------------------------------------------------------------ loops
     def loop_spec(self, ctx, header):
@@ -939,7 +958,7 @@ class FuncRun(ExprMixin, InstrMixin, CallMixin):
             if cid not in st.cells or not is_term(st.cells[cid]):
                 continue
             v0 = st.cells[cid]
-            if v0[0] != 'i':
+            if T.sort_of(v0) != T.INT:
                 continue
             ok = True
             for s_ in lst:
@@ -959,7 +978,8 @@ class FuncRun(ExprMixin, InstrMixin, CallMixin):
             if ok and ('cell', cid) in writes:
                 def mk2(env, cid=cid, v0=v0):
                     return T.le(v0, env.state.cells[cid])
-                out.append(('%s >= %d' % (d.get('name') or addr, v0[1]), mk2))
+                out.append((('%s >= %d' % (d.get('name') or addr, v0[1])) if v0[0] == 'i' else
+                            ('%s >= its value at loop entry' % (d.get('name') or addr)), mk2))
         return out
 
     def inline_name(self, ctx):
